@@ -90,10 +90,12 @@ def expected(variant, reqs, msgs):
 def gen_cases(rng, tier):
     cases, exp = [], {}
 
-    def add(variant, reqs, msgs, kind):
+    def add(variant, reqs, msgs, kind, inpub=0):
         cid = f"p{len(cases)}"
         toks = []
-        for k, path, val in reqs:
+        for i, (k, path, val) in enumerate(reqs):
+            if inpub and i == len(reqs) - 1:
+                toks.append(f"inpub:{inpub}")     # the first `inpub` messages overtake the return of the last publish()
             toks.append(f"set:{cp(path)}:{cp(val)}" if k == "set" else f"{k}:{cp(path)}")
         for topic, payload, cdspec, code in msgs:
             t = "R" if topic == "R" else cp(topic)
@@ -145,7 +147,28 @@ def gen_cases(rng, tier):
                     msgs.append(("R", "zz", None, None))                                  # no properties at all
                 elif r < 0.5:
                     msgs.append(("R", "7", rng.randrange(len(reqs)), rng.choice(["Ok", "Error", "Continue", "ok", "Weird"])))
-            add(variant, reqs, msgs, "random")
+            add(variant, reqs, msgs, "random", inpub=rng.choice([0, 0, 0, 1, 2]) if msgs else 0)
+        # responses overtaking the return of publish(): the last request's own answer (or a part of it) is dispatched
+        # while its publish() is still in progress
+        for _ in range(max(n // 5, 20)):
+            reqs = []
+            for _k in range(rng.randrange(1, 4)):
+                kind = rng.choice(["get", "set", "list", "clear"])
+                reqs.append((kind, rng.choice(["/a", "/b/c", ""]), rng.choice(["5", "true"]) if kind == "set" else None))
+            seqs = [[("R", p, k, c) for p, c in well_formed_responses(kind, rng)] for k, (kind, _p, _v) in enumerate(reqs)]
+            own = seqs[-1]
+            early = rng.randrange(1, len(own) + 1)
+            rest = own[early:]
+            others = [m for s_ in seqs[:-1] for m in s_]
+            rng.shuffle(others)
+            # keep each request's own order
+            others.sort(key=lambda m: 0)
+            msgs = own[:early]
+            pool = [list(s_) for s_ in seqs[:-1]] + [rest]
+            while any(pool):
+                k = rng.choice([i for i, s_ in enumerate(pool) if s_])
+                msgs.append(pool[k].pop(0))
+            add(variant, reqs, msgs, "race", inpub=early)
     return cases, exp
 
 
